@@ -69,6 +69,7 @@ type Exec struct {
 	w         *World
 	specs     *SpecDB
 	obls      []*Obligation
+	noRetry   map[string]bool // obligations that get no second solver pass (known findings)
 	facts     []*Term
 	cur       *Contract // function under verification
 	curKey    string
